@@ -41,8 +41,17 @@ def quiet():
     lg.setLevel(logging.CRITICAL + 10)
 
 
+_ORIG = [False]     # typed traits: the validator returns a WRAPPED value while the trait stores the original one
+                    # (setattr_original_value, as Expression / AdaptsTo do): handlers are told what is readable
+
+
+class Wrapped(object):
+    def __init__(self, v):
+        self.v = v
+
+
 def get_class(cfg):
-    key = (cfg["mode"], cfg["kind"], cfg["typed"], cfg["shape"])
+    key = (cfg["mode"], cfg["kind"], cfg["typed"], cfg["shape"], _ORIG[0] and cfg["typed"] and cfg["kind"] == "trait")
     if key in _cls:
         return _cls[key]
     build.install()
@@ -58,10 +67,25 @@ def get_class(cfg):
             if value is BAD:
                 self.error(object, name, value)
             return value
+
+    class OrigNoBad(NoBad):
+        def validate(self, object, name, value):
+            if value is BAD:
+                self.error(object, name, value)
+            return Wrapped(value)
+
+        def as_ctrait(self):
+            ctrait = super().as_ctrait()
+            ctrait.setattr_original_value = True
+            return ctrait
+    if key[4]:
+        NoBadX = OrigNoBad
+    else:
+        NoBadX = NoBad
     if cfg["kind"] == "event":
         tr = Event(NoBad()) if cfg["typed"] else Event()
     else:
-        tr = NoBad(comparison_mode=cm) if cfg["typed"] else Any(DFLT, comparison_mode=cm)
+        tr = NoBadX(comparison_mode=cm) if cfg["typed"] else Any(DFLT, comparison_mode=cm)
 
     def static(self, old, new):
         self._rec("static", old, new)
@@ -85,7 +109,7 @@ def get_class(cfg):
             raise RuntimeError("handler %s raises" % mech)
     magic = "_x_fired" if cfg["kind"] == "event" else "_x_changed"
     ns = {"x": tr, "y": NoBad(), "_rec": _rec, "_log": None, "_raising": ()}
-    name = "C02_%s_%s_%s_%s" % key
+    name = "C02_%s_%s_%s_%s_%s" % key
     if cfg["shape"] == "plain":
         ns["_anytrait_changed"] = anytrait
         ns[magic] = static
@@ -126,8 +150,9 @@ BADCALL = _BadCall()
 class World(object):
     """one object + fresh value objects for a history"""
 
-    def __init__(self, cfg, raising, regs=DYNAMIC):
+    def __init__(self, cfg, raising, regs=DYNAMIC, orig=False):
         from traits.api import Undefined
+        _ORIG[0] = orig
         import numpy
         self.cfg = cfg
         self.tok2obj = {"v1": tuple([1, 2]), "v1e": tuple([1, 2]), "v2": tuple([3]), "nanA": float("nan"),
@@ -135,6 +160,7 @@ class World(object):
         assert self.tok2obj["v1"] is not self.tok2obj["v1e"] and self.tok2obj["nanA"] is not self.tok2obj["nanB"]
         self.id2tok = {id(o): t for t, o in self.tok2obj.items()}
         cls = get_class(cfg)
+        _ORIG[0] = False
         obj = cls.__new__(cls)
         obj.__dict__["_log"] = []
         obj.__dict__["_raising"] = tuple(raising)
@@ -279,7 +305,7 @@ def case_fn(st, rep):
         return None
     cfg = {"mode": str(last["cfg"]["mode"]), "kind": str(last["cfg"]["kind"]), "typed": bool(last["cfg"]["typed"]),
            "shape": str(last["cfg"]["shape"])}
-    w = World(cfg, RAISING_SETS[rep])
+    w = World(cfg, RAISING_SETS[rep], orig=(rep % 3 == 1))
     w.quiet_form = rep % 2
     if cfg["kind"] == "event" and last["pre"] != "unset":
         return None
@@ -299,7 +325,7 @@ def history_lines(seed, ntraces, steps):
         cfg = {"mode": rnd.choice(["none", "identity", "equality"]), "kind": "trait" if rnd.random() < 0.85 else "event",
                "typed": rnd.random() < 0.5, "shape": rnd.choice(["plain", "inherited", "bare", "bare", "wild"])}
         raising = [m for m in MECHS if rnd.random() < 0.25]
-        w = World(cfg, raising, regs=[m for m in DYNAMIC if rnd.random() < 0.3])
+        w = World(cfg, raising, regs=[m for m in DYNAMIC if rnd.random() < 0.3], orig=rnd.random() < 0.3)
         w.quiet_form = rnd.randint(0, 1)
         for _ in range(steps):
             u = rnd.random()
